@@ -28,7 +28,7 @@
 // spherical map is driven through the public component functions SphericalTransform::range/azimut/
 // elevation instead (the same arithmetic, compiles on the unrepaired tree).
 #ifndef C10_FLOAT_TOSPHERICAL
-#define C10_FLOAT_TOSPHERICAL 0
+#define C10_FLOAT_TOSPHERICAL 1
 #endif
 
 namespace rc = romea::core;
